@@ -4,11 +4,11 @@
   ORDER the Rust code makes them.  `step : Env → T → Op → Outcome Val × T` has the same shape as
   `Memfs.step`; results use the same `Val` constructors.
 
-  Differential check (2026-09-30, rustc 1.95, Linux, as root): 600 random scripts of up to 80 calls over
-  a five-name universe, cut at the first call outside the domain (an argument or link target that
-  passes THROUGH a link), replayed against the real `Stdfs` in a sandbox: every returned value and the
-  final tree (names, kinds, permission bits, link texts, bytes, process cwd) agree, except for the
-  cases listed under NOT MODELLED and the spelling of a moved link's text.
+  Differential check (2026-09-30, rustc 1.95, Linux, as root): random scripts of up to 80 calls over a
+  five-name universe, cut at the first call outside the domain (an argument or link target that
+  passes THROUGH a link), replayed against the real `Stdfs` in a sandbox (600 scripts before the
+  repairs, 250 after the first five, 250 after all of them, each against the tree of the time): every returned value and the final tree (names,
+  kinds, permission bits, link texts, bytes, process cwd) agree, except for the spelling of a moved link's text.
 
   Conventions
   * Every user-supplied path goes through `absP` (= `Stdfs::abs`, the string pipeline of Model/Path,
@@ -16,8 +16,13 @@
     (`ParentNotFound` for `/`), as in the Memfs model.  Where the Rust code hands a path it computed
     itself to another `Stdfs::` function (which calls `abs` AGAIN, re-expanding `~`/`$`), the model
     renders the key and calls the string version.
-  * `Stdfs::is_dir` / `Stdfs::is_file` do NOT call `abs`: the raw string goes to `lstat`
-    (`Posix.lstatRaw`).  When they are applied to the result of `abs` the key-level `lstat` is used.
+  * `Stdfs::is_dir` / `Stdfs::is_file` (since fix 0b4a978) are `abs` + `symlink_metadata`, like every
+    other query.  Where the Rust code applies them (or `Stdfs::exists`) to a path that already IS the
+    result of `abs`, the model uses the key-level `lstat`/`stat` directly: `abs` is the identity on
+    such a path unless one of its names contains `~` or `$` (C05, idempotence).
+  * This file follows the tree with the five repairs 0b4a978 (is_dir/is_file), 07b9520 (remove),
+    fb609ee (remove_all), 65f3327 (mkdir_m), 1506af7 (readlink_abs), c6af400 (mkdir_p), fcf2bdc (all_*),
+    82971d7 + 25a8372 (copy).
   * io errors are mapped by `ioErr`; C02 compares success with failure only.
   * NOT MODELLED (return `.err .other`): `entry`, `entries`, the open-handle operations
     (`hWrite … hDrop`: a `File` is kernel state the tree does not have), `follow = true` for
@@ -108,9 +113,12 @@ def dirOf (k : FsPath) : SM FsPath := if k = [] then fail .parentNotFound else S
 def isDirK (t : T) (k : FsPath) : Bool := match lstat t k with | .ok n => n.kind = .dir | .error _ => false
 def isFileK (t : T) (k : FsPath) : Bool := match lstat t k with | .ok n => n.kind = .file | .error _ => false
 
-/-- `Stdfs::is_dir(p)` / `Stdfs::is_file(p)` on a user string: NO `abs`, straight to `symlink_metadata` -/
-def isDirRaw (t : T) (s : Str) : Bool := match lstatRaw t s with | .ok n => n.kind = .dir | .error _ => false
-def isFileRaw (t : T) (s : Str) : Bool := match lstatRaw t s with | .ok n => n.kind = .file | .error _ => false
+/-- `Stdfs::is_dir(p)` / `Stdfs::is_file(p)` on a user string: `abs` (an error counts as `false`),
+    then `symlink_metadata` -/
+def isDirS (env : Env) (t : T) (s : Str) : Bool :=
+  match absK env t s with
+  | .ok k => isDirK t k
+  | _ => false
 
 /-- `Stdfs::exists(p)`: `abs` errors count as "does not exist"; `fs::metadata` follows links -/
 def existsS (env : Env) (t : T) (s : Str) : Bool :=
@@ -198,22 +206,24 @@ def mkfileM (env : Env) (p : Str) (mode : Nat) : SM FsPath := do
   return k
 
 /-- `Stdfs::mkdir_m`: for every prefix of the absolute path, `if !path.exists() { create_dir;
-    set_permissions }`.  Nothing checks that what exists is a directory. -/
+    set_permissions } else if !path.is_dir() { return Err(IsNotDir) }` (`Path::exists` / `Path::is_dir`:
+    `stat`, following links) -/
 def mkdirM (env : Env) (p : Str) (mode : Nat) : SM FsPath := do
   let k ← absM env p
   (prefixes k).forM (fun q => do
     let t ← getT
     if !(Posix.exists t q) then
       sysM (Posix.mkdir · q 0o777)
-      sysM (Posix.chmod · q mode))
+      sysM (Posix.chmod · q mode)
+    else if !(statIsDir t q) then fail .isNotDir)
   return k
 
-/-- `Stdfs::mkdir_p` -/
+/-- `Stdfs::mkdir_p` (since fix c6af400 the kind test is `Path::is_dir`: `stat`, follows a final link) -/
 def mkdirP (env : Env) (p : Str) : SM FsPath := do
   let k ← absM env p
   let t ← getT
   if !(Posix.exists t k) then sysM (createDirAll · (k.length + 1) k)
-  else if !(isDirK t k) then fail .isNotDir
+  else if !(statIsDir t k) then fail .isNotDir
   return k
 
 /-- `Stdfs::write_all` -/
@@ -282,28 +292,29 @@ def readLines (env : Env) (p : Str) : SM (List Str) := do
 
 /-! ### remove -/
 
-/-- `Stdfs::remove`: `fs::metadata` FOLLOWS; regular file → `remove_file`; directory → `remove_dir`
-    (so a link to a directory fails with `ENOTDIR`); metadata error (missing, dangling link) → `Ok`
-    with nothing removed -/
+/-- `Stdfs::remove`: `symlink_metadata` (no following); anything but a directory → `remove_file`;
+    a directory → `remove_dir`; metadata error (missing path) → `Ok` -/
 def remove (env : Env) (p : Str) : SM Unit := do
   let k ← absM env p
   let t ← getT
-  match stat t k with
+  match lstat t k with
   | .ok n =>
-    if n.kind = .file then sysM (unlink · k)
-    else if n.kind = .dir then
+    if n.kind ≠ .dir then sysM (unlink · k)
+    else
       fun t => match rmdir t k with
         | .ok t' => (.ok (), t')
         | .error .ENOTEMPTY => (.err .dirContainsFiles, t)     -- message contains "Directory not empty"
         | .error e => (.err (ioErr e), t)
-    else SM.pure ()
   | .error _ => SM.pure ()
 
-/-- `Stdfs::remove_all`: `if exists(path) { fs::remove_dir_all(path)? }` -/
+/-- `Stdfs::remove_all`: `symlink_metadata`; a directory → `fs::remove_dir_all`, anything else →
+    `fs::remove_file`; missing → `Ok` -/
 def removeAll (env : Env) (p : Str) : SM Unit := do
   let k ← absM env p
   let t ← getT
-  if Posix.exists t k then sysM (removeDirAll · k)
+  match lstat t k with
+  | .ok n => if n.kind = .dir then sysM (removeDirAll · k) else sysM (unlink · k)
+  | .error _ => SM.pure ()
 
 /-! ### links, cwd, move -/
 
@@ -325,11 +336,10 @@ def readlinkS (env : Env) (p : Str) : SM Str := do
   let k ← absM env p
   qry (readlink · k)
 
-/-- `Stdfs::readlink_abs` = `StdfsEntry::from(link)?.alt_buf()`: for anything that is not a link this
-    is `Ok` of the EMPTY path -/
+/-- `Stdfs::readlink_abs`: `StdfsEntry::from(link)?`; IsNotSymlink unless the entry is a link; its `alt` -/
 def readlinkAbs (env : Env) (p : Str) : SM Val := fun t =>
   match entryFrom env t p with
-  | .ok e => (.ok (if e.link then .path (toPath e.alt) else .str []), t)
+  | .ok e => (if e.link then .ok (.path (toPath e.alt)) else .err .isNotSymlink, t)
   | .err k => (.err k, t)
   | .panic => (.panic, t)
   | .hang => (.hang, t)
@@ -375,47 +385,57 @@ def childEntries (env : Env) (t : T) (k : FsPath) : Outcome (List SEntry) :=
   | .error e => .err (ioErr e)
   | .ok names => sequenceO (names.map (fun n => entryFrom env t (renderP (k ++ [n]))))
 
+/-- `self.iters.len() < self.opts.max_depth`; `none` = `usize::MAX` (deeper than any path can be) -/
+def belowMax (depth : Nat) : Option Nat → Bool
+  | some m => decide (depth < m)
+  | none => true
+
+/-- one iteration of the consumer loop over the (sorted) entries of a directory: the entry itself if the
+    filter accepts it, then whatever the walk below it yields; the first error ends everything -/
+def listStep (want : SEntry → Bool) (below : SEntry → Outcome (List FsPath))
+    (acc : Outcome (List FsPath)) (c : SEntry) : Outcome (List FsPath) :=
+  match acc with
+  | .ok ps =>
+    (match below c with
+     | .ok qs => .ok (ps ++ (if want c then [c.path] else []) ++ qs)
+     | o => o)
+  | o => o
+
 /-- what a sorted traversal with `min_depth(1)` yields below `e` (pre-order, siblings by name); only
     real directories are descended into (`follow = false`); `want` is the `dirs()`/`files()` filter -/
-def listKids (env : Env) (t : T) (want : SEntry → Bool) (maxDepth : Nat) :
+def listKids (env : Env) (t : T) (want : SEntry → Bool) (maxDepth : Option Nat) :
     Nat → Nat → SEntry → Outcome (List FsPath)
   | 0, _, _ => .hang
   | f + 1, depth, e =>
-    if e.dir && !e.link && depth < maxDepth then
+    if e.dir && !e.link && belowMax depth maxDepth then
       match childEntries env t e.path with
-      | .ok kids =>
-        (sortByName kids).foldl (fun acc c =>
-          match acc with
-          | .ok ps =>
-            (match listKids env t want maxDepth f (depth + 1) c with
-             | .ok qs => .ok (ps ++ (if want c then [c.path] else []) ++ qs)
-             | o => o)
-          | o => o) (.ok [])
+      | .ok kids => (sortByName kids).foldl (listStep want (listKids env t want maxDepth f (depth + 1))) (.ok [])
       | .err k => .err k
       | .panic => .panic
       | .hang => .hang
     else .ok []
 
-def walkFuel (t : T) : Nat := t.nodes.length + 2
+/-- fuel of a traversal: more than the length of the longest key (each level of recursion uses one) -/
+def walkFuel (t : T) : Nat := t.nodes.foldl (fun m kv => max m kv.1.length) 0 + 2
 
-/-- `paths` / `dirs` / `files`: `if !Stdfs::is_dir(&path)` on the RAW argument, then
-    `Stdfs::entries(path)?` (which does call `abs`) with `min_depth(1).max_depth(1).sort_by_name()` -/
+/-- `paths` / `dirs` / `files`: `if !Stdfs::is_dir(&path)`, then `Stdfs::entries(path)?` with
+    `min_depth(1).max_depth(1).sort_by_name()` -/
 def listing1 (env : Env) (p : Str) (want : SEntry → Bool) : SM (List FsPath) := fun t =>
-  if !(isDirRaw t p) then (.err .isNotDir, t)
+  if !(isDirS env t p) then (.err .isNotDir, t)
   else match entryFrom env t p with
-    | .ok e => (listKids env t want 1 (walkFuel t) 0 e, t)
+    | .ok e => (listKids env t want (some 1) (walkFuel t) 0 e, t)
     | .err k => (.err k, t)
     | .panic => (.panic, t)
     | .hang => (.hang, t)
 
-/-- `all_paths` / `all_dirs` / `all_files`: `StdfsEntry::from(path)?`, `is_dir()` of the ENTRY (true for
-    a link to a directory, which is then not descended into), `Stdfs::entries(src.path())?` -/
+/-- `all_paths` / `all_dirs` / `all_files`: `StdfsEntry::from(path)?`, IsNotDir unless the entry
+    `is_dir() && !is_symlink()` (fix fcf2bdc), then `Stdfs::entries(src.path())?` -/
 def listingAll (env : Env) (p : Str) (want : SEntry → Bool) : SM (List FsPath) := fun t =>
   match entryFrom env t p with
   | .ok src =>
-    if !src.dir then (.err .isNotDir, t)
+    if !src.dir || src.link then (.err .isNotDir, t)
     else match entryFrom env t (renderP src.path) with
-      | .ok e => (listKids env t want (2 ^ 64 - 1) (walkFuel t) 0 e, t)
+      | .ok e => (listKids env t want none (walkFuel t) 0 e, t)
       | .err k => (.err k, t)
       | .panic => (.panic, t)
       | .hang => (.hang, t)
@@ -461,23 +481,26 @@ def chmodPost (c : ChmodOpts) (src : SEntry) (t : T) : Outcome Unit × T :=
   | .panic => (.panic, t)
   | .hang => (.hang, t)
 
+/-- one iteration over the cached entries of a directory; the first error ends everything -/
+def visitStep (below : SEntry → T → Outcome Unit × T) (acc : Outcome Unit × T) (k : SEntry) : Outcome Unit × T :=
+  match acc with
+  | (.ok (), tt) => below k tt
+  | r => r
+
 /-- `contents_first().dirs_first()` traversal without following: a real directory runs `pre_op`, is
     read (children snapshotted; an error among them ends everything), its children are visited —
     directories (links to directories included) by name, then the rest by name — and only then the
     directory itself is yielded -/
-def chmodVisit (env : Env) (c : ChmodOpts) (maxDepth : Nat) : Nat → Nat → SEntry → T → Outcome Unit × T
+def chmodVisit (env : Env) (c : ChmodOpts) (maxDepth : Option Nat) : Nat → Nat → SEntry → T → Outcome Unit × T
   | 0, _, _, t => (.hang, t)
   | f + 1, depth, e, t =>
-    if e.dir && !e.link && depth < maxDepth then
+    if e.dir && !e.link && belowMax depth maxDepth then
       match chmodPre c e t with
       | (.ok (), t1) =>
         match childEntries env t1 e.path with
         | .ok kids =>
           let ordered := sortByName (kids.filter (·.dir)) ++ sortByName (kids.filter (fun x => !x.dir))
-          match ordered.foldl (fun acc k =>
-              match acc with
-              | (.ok (), tt) => chmodVisit env c maxDepth f (depth + 1) k tt
-              | r => r) ((.ok (), t1) : Outcome Unit × T) with
+          match ordered.foldl (visitStep (chmodVisit env c maxDepth f (depth + 1))) ((.ok (), t1) : Outcome Unit × T) with
           | (.ok (), t2) => chmodPost c e t2
           | r => r
         | .err k => (.err k, t1)
@@ -493,7 +516,7 @@ def chmod (env : Env) (p : Str) (c : ChmodOpts) : SM Unit := fun t =>
     | .ok k =>
       -- `Stdfs::entries(&opts.path)?`
       (match entryFrom env t (renderP k) with
-       | .ok e => chmodVisit env c (if c.recursive then 2 ^ 64 - 1 else 0) (walkFuel t) 0 e t
+       | .ok e => chmodVisit env c (if c.recursive then none else some 0) (walkFuel t) 0 e t
        | .err kk => (.err kk, t)
        | .panic => (.panic, t)
        | .hang => (.hang, t))
@@ -503,26 +526,32 @@ def chmod (env : Env) (p : Str) (c : ChmodOpts) : SM Unit := fun t =>
 
 /-! ### pre-order traversal with a mutating consumer (`_chown`, `_copy`) -/
 
+/-- one iteration over the names of an open directory: the child is turned into an entry in the
+    CURRENT tree (lazy iterator), then visited; the first error ends everything -/
+def walkStep (env : Env) (below : SEntry → SM Unit) (dir : FsPath) (acc : Outcome Unit × T) (n : Str) :
+    Outcome Unit × T :=
+  match acc with
+  | (.ok (), tt) =>
+    (match entryFrom env tt (renderP (dir ++ [n])) with
+     | .ok c => below c tt
+     | .err k => (.err k, tt)
+     | .panic => (.panic, tt)
+     | .hang => (.hang, tt))
+  | r => r
+
 /-- pre-order, not following: a real directory is opened (`read_dir`: the names are fixed now), then
     yielded, then each child is turned into an entry WHEN IT IS REACHED (lazy iterator) and visited -/
-def walkPre (env : Env) (stepf : SEntry → SM Unit) (maxDepth : Nat) : Nat → Nat → SEntry → SM Unit
+def walkPre (env : Env) (stepf : SEntry → SM Unit) (maxDepth : Option Nat) : Nat → Nat → SEntry → SM Unit
   | 0, _, _ => fun t => (.hang, t)
   | f + 1, depth, e => fun t =>
-    if e.dir && !e.link && depth < maxDepth then
+    if e.dir && !e.link && belowMax depth maxDepth then
       match readDir t e.path with
       | .error er => (.err (ioErr er), t)
       | .ok names =>
         match stepf e t with
         | (.ok (), t1) =>
-          names.foldl (fun acc n =>
-            match acc with
-            | (.ok (), tt) =>
-              (match entryFrom env tt (renderP (e.path ++ [n])) with
-               | .ok c => walkPre env stepf maxDepth f (depth + 1) c tt
-               | .err k => (.err k, tt)
-               | .panic => (.panic, tt)
-               | .hang => (.hang, tt))
-            | r => r) ((.ok (), t1) : Outcome Unit × T)
+          names.foldl (walkStep env (walkPre env stepf maxDepth f (depth + 1)) e.path)
+            ((.ok (), t1) : Outcome Unit × T)
         | r => r
     else stepf e t
 
@@ -533,7 +562,7 @@ def chown (env : Env) (p : Str) (c : ChownOpts) : SM Unit := fun t =>
     | .ok k =>
       (match entryFrom env t (renderP k) with
        | .ok e => walkPre env (fun x => sysM (Posix.chown · x.path c.uid c.gid))
-                    (if c.recursive then 2 ^ 64 - 1 else 0) (walkFuel t) 0 e t
+                    (if c.recursive then none else some 0) (walkFuel t) 0 e t
        | .err kk => (.err kk, t)
        | .panic => (.panic, t)
        | .hang => (.hang, t))
@@ -564,21 +593,43 @@ def copyStep (env : Env) (srcRoot dstRoot : FsPath) (copyInto : Bool) (dirMode f
           let pe ← liftO (entryFrom env t (renderP sd))
           SM.pure pe.mode
       let _ ← mkdirM env (renderP dd) pm
-    -- `fs::copy(src.path(), &dst_path)?`
-    sysM (copyFile · src.path dstPath)
+    -- `if dst_path != src.path() { fs::copy(src.path(), &dst_path)?; }` (fix 25a8372)
+    if dstPath ≠ src.path then sysM (copyFile · src.path dstPath)
     match fileMode with
     | some m => sysM (Posix.chmod · dstPath m)
     | none => SM.pure ()
 
-/-- `Stdfs::_copy` -/
+/-- one iteration of the COLLECTING traversal over the names of an open directory (all in the same,
+    unchanged tree): the child's entry, then everything its walk yields; an `Err` item ends the list -/
+def collectStep (env : Env) (t : T) (below : SEntry → List SEntry × Outcome Unit) (dir : FsPath)
+    (acc : List SEntry × Outcome Unit) (n : Str) : List SEntry × Outcome Unit :=
+  match acc with
+  | (items, .ok ()) =>
+    (match entryFrom env t (renderP (dir ++ [n])) with
+     | .ok c => let r := below c; (items ++ r.1, r.2)
+     | .err k => (items, .err k)
+     | .panic => (items, .panic)
+     | .hang => (items, .hang))
+  | r => r
+
+/-- `Stdfs::entries(root)?.into_iter().collect::<Vec<_>>()` (pre-order, not following): the `Ok` items
+    up to the first `Err` item, and how the iteration ended -/
+def collectPre (env : Env) (t : T) (maxDepth : Option Nat) : Nat → Nat → SEntry → List SEntry × Outcome Unit
+  | 0, _, _ => ([], .hang)
+  | f + 1, depth, e =>
+    if e.dir && !e.link && belowMax depth maxDepth then
+      match readDir t e.path with
+      | .error er => ([], .err (ioErr er))
+      | .ok names => names.foldl (collectStep env t (collectPre env t maxDepth f (depth + 1)) e.path) ([e], .ok ())
+    else ([e], .ok ())
+
+/-- `Stdfs::_copy`: the source tree is read BEFORE anything is written (fix 82971d7), then the loop
+    body runs over that fixed list -/
 def copy (env : Env) (src dst : Str) (c : CopyOpts) : SM Unit := do
   let srcRoot ← absM env src
   let dstRoot ← absM env dst
   if srcRoot = dstRoot then return ()
   if c.follow then fail .other             -- NOT MODELLED
-  -- NOT MODELLED: copying a directory into its own subtree (the lazy `readdir` of the real traversal
-  -- observes the entries the copy is creating and recurses until an OS limit stops it)
-  if isProperPrefix srcRoot dstRoot then fail .other
   let dirMode := match c.mode with | some x => if c.cdirs ∨ !c.cfiles then some x else none | none => none
   let fileMode := match c.mode with | some x => if c.cfiles ∨ !c.cdirs then some x else none | none => none
   let t ← getT
@@ -586,7 +637,10 @@ def copy (env : Env) (src dst : Str) (c : CopyOpts) : SM Unit := do
   -- `StdfsEntry::from(&src_root)?.follow(false)`, then `Stdfs::entries(src_root.path())?`
   let rootE ← liftO (entryFrom env t (renderP srcRoot))
   let travRoot ← liftO (entryFrom env t (renderP rootE.path))
-  walkPre env (copyStep env rootE.path dstRoot copyInto dirMode fileMode) (2 ^ 64 - 1) (walkFuel t + 2) 0 travRoot
+  let (items, fin) := collectPre env t none (walkFuel t) 0 travRoot
+  items.forM (copyStep env rootE.path dstRoot copyInto dirMode fileMode)
+  -- `let src = entry?;` on the `Err` item, if the traversal produced one
+  liftO fin
 
 /-! ### the trait surface -/
 
@@ -616,8 +670,10 @@ def step (env : Env) (t : T) : Op → Outcome Val × T
   | .abs p => mapVal .path (absM env p) t
   | .exists p => (match absK env t p with
       | .ok k => .ok (.bool (Posix.exists t k)) | .panic => .panic | _ => .ok (.bool false), t)
-  | .isFile p => (.ok (.bool (isFileRaw t p)), t)
-  | .isDir p => (.ok (.bool (isDirRaw t p)), t)
+  | .isFile p => (match absK env t p with
+      | .ok k => .ok (.bool (isFileK t k)) | .panic => .panic | _ => .ok (.bool false), t)
+  | .isDir p => (match absK env t p with
+      | .ok k => .ok (.bool (isDirK t k)) | .panic => .panic | _ => .ok (.bool false), t)
   | .isSymlink p => (entryBool env t p (·.link), t)
   | .isSymlinkDir p => (entryBool env t p (fun e => e.link && e.dir), t)
   | .isSymlinkFile p => (entryBool env t p (fun e => e.link && e.file), t)
